@@ -1,7 +1,7 @@
 (* C17 — Morphometrics obey their defining recurrences and path counts. *)
 From Coq Require Import List ZArith QArith Bool.
 Import ListNotations.
-From Navis Require Import proofs.Metric model.Forest model.Dist model.Prune model.Strahler model.Flow
+From Navis Require Import proofs.Metric proofs.SegJensen model.Forest model.Dist model.Prune model.Strahler model.Flow
   proofs.ForestWF proofs.StrahlerProofs proofs.FlowProofs.
 Open Scope Z_scope.
 
@@ -58,15 +58,23 @@ Theorem C17_forks_take_largest_child : forall t raw r,
 Proof. exact fork_rule_spec. Qed.
 Print Assumptions C17_forks_take_largest_child.
 
-(* segregation index, for any entropy function vanishing at 0 and 1: pure compartments give entropy 0 (index 1).
-   [0,1]-boundedness (Jensen's inequality for the binary entropy over R) is NOT proved: partial, decided numerically on
-   implementation outputs *)
-Theorem C17_segregation_separated_partial : forall (H : Q -> Q) comps,
+(* segregation index, parametric in the entropy function H (logarithms are irrational; navis' binary entropy is one instance):
+   pure compartments give entropy 0 (index 1), and for every H that is non-negative and concave on [0,1] the index lies in [0,1]
+   (finite Jensen inequality, proofs/SegJensen.v) *)
+Theorem C17_segregation_separated : forall (H : Q -> Q) comps,
   (H 0 == 0)%Q -> (H 1 == 0)%Q -> (forall x y, x == y -> H x == H y)%Q ->
   (forall c, In c comps -> 0 <= fst c /\ 0 <= snd c /\ (fst c = 0 \/ snd c = 0)) ->
   (seg_entropy H comps == 0)%Q.
 Proof. exact seg_separated. Qed.
-Print Assumptions C17_segregation_separated_partial.
+Print Assumptions C17_segregation_separated.
+Theorem C17_segregation_entropy_bounds : forall H comps, H_ext H -> H_nonneg H -> H_concave H -> nonneg_counts comps -> (0 < Ntot comps)%Z ->
+  (0 <= seg_entropy H comps /\ seg_entropy H comps <= seg_norm H comps)%Q.
+Proof. exact seg_entropy_bounds. Qed.
+Print Assumptions C17_segregation_entropy_bounds.
+Theorem C17_segregation_index_in_unit : forall H comps, H_ext H -> H_nonneg H -> H_concave H -> nonneg_counts comps -> (0 < Ntot comps)%Z ->
+  (0 < seg_norm H comps -> 0 <= 1 - seg_entropy H comps / seg_norm H comps <= 1)%Q.
+Proof. exact segregation_index_in_unit. Qed.
+Print Assumptions C17_segregation_index_in_unit.
 
 (* tortuosity = path length / end-to-end distance is never below 1, and is 1 on straight segments - for ANY distance function
    obeying the triangle inequality (square roots are irrational, so the statement is parametric in the metric rather than about R;
